@@ -7,6 +7,7 @@ import (
 	"math"
 	"net/http"
 	"net/http/httptest"
+	"os"
 	"path/filepath"
 	"regexp"
 	"sort"
@@ -97,7 +98,9 @@ func validPoint(t *rapid.T, label string, withId bool) map[string]any {
 		p["meta"] = map[string]any{"k": float64(rapid.IntRange(0, 9).Draw(t, label+"-mk")), "other": "x"}
 	}
 	if rapid.Bool().Draw(t, label+"-extra") {
-		p["extra"] = rapid.SampledFrom([]any{nil, true, "s", float64(1), []any{float64(1), "a"}, map[string]any{"a": map[string]any{"b": float64(1)}}}).Draw(t, label+"-e")
+		// (the markers are plain strings in a JSON body and non-finite numbers in a MessagePack body: in a
+		// property without an index they do not enter any distance)
+		p["extra"] = rapid.SampledFrom([]any{nil, true, "s", float64(1), []any{float64(1), "a"}, map[string]any{"a": map[string]any{"b": float64(1)}}, "$NaN", "$Inf", map[string]any{"ratio": "$-Inf"}, []any{"$NaN"}}).Draw(t, label+"-e")
 	}
 	if withId {
 		p["_id"] = rapid.SampledFrom(poolIds).Draw(t, label+"-id")
@@ -739,9 +742,59 @@ func genCase(t *rapid.T) Case {
 			Req{Method: "POST", Path: "/v2/collections/mix2/points/search", Headers: hd, Body: `{"query":{"property":"metadata.k","integer":{"value":0,"operator":"greaterThan"}},"limit":5}`})
 		intact = false
 	}
+	if rapid.IntRange(0, 7).Draw(t, "path-user") == 0 {
+		// a user id that reads like a path: the id names the directory of the user's shards and the prefix of
+		// its records. Whatever the server makes of such an id (refuse it, or serve it as a user of its own),
+		// its requests address its own collections only: alice's and bob's data stay as they are
+		user := rapid.SampledFrom([]string{"x/..", "alice/.", "./alice", "alice/../alice", "alice//", "../userCollections/alice", "bob/..", "alice/", "x/../alice", "x/./..", "..x", "a..b/.."}).Draw(t, "pu-user")
+		col := rapid.SampledFrom([]string{"alice", "colv2", "colv1", "bob", "other"}).Draw(t, "pu-col")
+		hd := map[string]string{"Content-Type": "application/json", "X-User-Id": user, "X-Plan-Id": plan}
+		jb, _ := json.Marshal(map[string]any{"id": col, "indexSchema": map[string]any{"size": map[string]any{"type": "integer"}}})
+		c.Reqs = append(c.Reqs,
+			Req{Method: "POST", Path: "/v2/collections", Headers: hd, Body: string(jb)},
+			Req{Method: "POST", Path: "/v2/collections/" + col + "/points", Headers: hd, Body: `{"points":[{"size":1}]}`})
+		if rapid.Bool().Draw(t, "pu-search") {
+			c.Reqs = append(c.Reqs, Req{Method: "POST", Path: "/v2/collections/" + col + "/points/search", Headers: hd, Body: `{"query":{"property":"size","integer":{"value":0,"operator":"greaterThan"}},"limit":5}`})
+		}
+		c.Reqs = append(c.Reqs, Req{Method: "DELETE", Path: "/v2/collections/" + col, Headers: hd})
+		intact = false
+	}
+	var selecting []Req
+	if rapid.IntRange(0, 7).Draw(t, "nonfinite-field") == 0 {
+		// a valid write in MessagePack that carries a non-finite number outside the indexed vectors (such a
+		// number enters no distance), and at the end of the case searches that select the field: answers
+		// are JSON, whatever was stored has to be answered without a 5xx (or must not have been accepted)
+		hd := map[string]string{"Content-Type": "application/json", "X-User-Id": "alice", "X-Plan-Id": plan}
+		val := rapid.SampledFrom([]any{"$NaN", "$Inf", "$-Inf", []any{1.0, "$NaN"}, map[string]any{"ratio": "$Inf"}}).Draw(t, "nf-val")
+		where := rapid.SampledFrom([]string{"extra", "meta.other", "reading"}).Draw(t, "nf-where")
+		pt := map[string]any{"vector": []any{1.0, 2.0}, "flat": []any{0.0, 0.5}, "size": 4.0}
+		if where == "meta.other" {
+			pt["meta"] = map[string]any{"k": 2.0, "other": val}
+		} else {
+			pt[where] = val
+		}
+		switch rapid.IntRange(0, 2).Draw(t, "nf-how") {
+		case 0: // insert of a new point
+			jb, _ := json.Marshal(map[string]any{"points": []any{pt}})
+			c.Reqs = append(c.Reqs, Req{Method: "POST", Path: "/v2/collections/colv2/points", Headers: hd, Body: string(jb), Msgpack: true})
+		case 1: // update of a stored point
+			pt["_id"] = rapid.SampledFrom(poolIds[:2]).Draw(t, "nf-id")
+			jb, _ := json.Marshal(map[string]any{"points": []any{pt}})
+			c.Reqs = append(c.Reqs, Req{Method: "PUT", Path: "/v2/collections/colv2/points", Headers: hd, Body: string(jb), Msgpack: true})
+		default: // through the v1 API: metadata
+			jb, _ := json.Marshal(map[string]any{"points": []any{map[string]any{"vector": []any{1.0, 2.0}, "metadata": map[string]any{"reading": val}}}})
+			c.Reqs = append(c.Reqs, Req{Method: "POST", Path: "/v1/collections/colv1/points", Headers: hd, Body: string(jb), Msgpack: true})
+			selecting = append(selecting, Req{Method: "POST", Path: "/v1/collections/colv1/points/search", Headers: hd, Body: `{"vector":[1,2],"limit":10}`})
+		}
+		selecting = append(selecting,
+			Req{Method: "POST", Path: "/v2/collections/colv2/points/search", Headers: hd, Body: `{"query":{"property":"size","integer":{"value":-100,"operator":"greaterThan"}},"select":["*"],"limit":50}`},
+			Req{Method: "POST", Path: "/v2/collections/colv2/points/search", Headers: hd, Body: `{"query":{"property":"flat","vectorFlat":{"vector":[0,0.5],"operator":"near","limit":10}},"select":["extra","meta","reading"],"limit":10}`})
+		intact = false
+	}
 	for i := 0; i < n; i++ {
 		c.Reqs = append(c.Reqs, genReq(t, fmt.Sprintf("r%d", i), &intact))
 	}
+	c.Reqs = append(c.Reqs, selecting...)
 	if rapid.IntRange(0, 7).Draw(t, "secured") == 0 {
 		// a deployment behind a proxy: every request has to carry the proxy secret; one in three does not
 		c.ProxySecret = "s3cret-of-the-proxy"
@@ -860,39 +913,109 @@ func newServer(dir string, proxySecret string) (*server, error) {
 
 // digest reads everything stored (through the cluster API, not through HTTP).
 func (s *server) digest() (string, error) {
-	var parts []string
+	d, _, err := s.digestByKey()
+	return d, err
+}
+
+// digestByKey is digest plus the same text split by "user/collection".
+func (s *server) digestByKey() (string, map[string]string, error) {
+	all, byKey, err := s.digestInner()
+	if err != nil {
+		return "", nil, err
+	}
+	m := map[string]string{}
+	for i, k := range byKey {
+		m[k] += all[i] + "\n"
+	}
+	return strings.Join(all, "\n"), m, nil
+}
+
+func (s *server) digestInner() (parts []string, keys []string, err error) {
+	add := func(key, line string) { parts = append(parts, line); keys = append(keys, key) }
 	for _, u := range []string{"alice", "bob"} {
 		cols, err := s.node.ListCollections(u)
 		if err != nil {
-			return "", err
+			return nil, nil, err
 		}
 		sort.Slice(cols, func(i, j int) bool { return cols[i].Id < cols[j].Id })
 		for _, col := range cols {
+			key := u + "/" + col.Id
 			col.UserPlan = models.UserPlan{MaxCollectionPointCount: 1000, MaxPointSize: 1 << 20}
 			infos, err := s.node.GetShardsInfo(col)
 			if err != nil {
-				return "", err
+				return nil, nil, err
 			}
 			schemaJSON, _ := json.Marshal(col.IndexSchema)
-			parts = append(parts, fmt.Sprintf("%s/%s shards=%d info=%v schema=%s", u, col.Id, len(col.ShardIds), infos, schemaJSON))
+			add(key, fmt.Sprintf("%s/%s shards=%d info=%v schema=%s", u, col.Id, len(col.ShardIds), infos, schemaJSON))
 			if len(col.ShardIds) == 0 {
 				continue
 			}
 			vals := append([]string{}, poolIds...)
 			rows, err := s.node.SearchPoints(col, models.SearchRequest{Query: models.Query{Property: "_id", StringArray: &models.SearchStringArrayOptions{Value: vals, Operator: models.OperatorContainsAny}}, Select: []string{"*"}, Limit: 100})
 			if err != nil {
-				return "", fmt.Errorf("reading %s/%s: %v", u, col.Id, err)
+				return nil, nil, fmt.Errorf("reading %s/%s: %v", u, col.Id, err)
 			}
 			var docs []string
 			for _, r := range rows {
 				docs = append(docs, fmt.Sprintf("%s=%x", r.Point.Id, r.Point.Data))
 			}
 			sort.Strings(docs)
-			parts = append(parts, docs...)
+			for _, d := range docs {
+				add(key, d)
+			}
 		}
 	}
-	return strings.Join(parts, "\n"), nil
+	return parts, keys, nil
 }
+
+// addressed names the "user/collection" a request speaks about ("" when it names none).
+func addressed(r Req) string {
+	user := r.Headers["X-User-Id"]
+	p := strings.SplitN(strings.TrimPrefix(strings.TrimPrefix(r.Path, "/v1/"), "/v2/"), "?", 2)[0]
+	segs := strings.Split(p, "/")
+	if len(segs) >= 2 && segs[0] == "collections" && segs[1] != "" {
+		return user + "/" + segs[1]
+	}
+	if len(segs) >= 1 && segs[0] == "collections" && r.Method == "POST" {
+		var b map[string]any
+		if json.Unmarshal([]byte(r.Body), &b) == nil {
+			if id, ok := b["id"].(string); ok {
+				return user + "/" + id
+			}
+		}
+	}
+	return ""
+}
+
+// hugeIn reports whether a JSON tree holds a number that can push a distance or a score out of the finite
+// range (magnitude from 1e15, or one of the non-finite markers a MessagePack body expands), anywhere
+// (under == "") or below a key of one of the given names.
+func hugeIn(v any, inside bool, under map[string]bool) bool {
+	switch x := v.(type) {
+	case float64:
+		return inside && (math.Abs(x) >= 1e15 || math.IsNaN(x))
+	case json.Number:
+		f, err := x.Float64()
+		return inside && (err != nil || math.Abs(f) >= 1e15)
+	case string:
+		return inside && (x == "$NaN" || x == "$Inf" || x == "$-Inf")
+	case []any:
+		for _, e := range x {
+			if hugeIn(e, inside, under) {
+				return true
+			}
+		}
+	case map[string]any:
+		for k, e := range x {
+			if hugeIn(e, inside || under[k], under) {
+				return true
+			}
+		}
+	}
+	return false
+}
+
+var vectorKeys = map[string]bool{"vector": true, "flat": true}
 
 var nonFinite = regexp.MustCompile(`json: unsupported value: (\+Inf|-Inf|NaN)`)
 var reUUID = regexp.MustCompile(`[0-9a-f]{8}-[0-9a-f]{4}-[0-9a-f]{4}-[0-9a-f]{4}-[0-9a-f]{12}`)
@@ -929,12 +1052,22 @@ func execCase(c Case) (res vt.Result) {
 		s.node.VerifShardManager().VerifUnloadAll()
 		s.node.Close()
 	}()
-	before, err := s.digest()
+	before, beforeBy, err := s.digestByKey()
 	if err != nil {
 		return vt.Result{Err: fmt.Errorf("digest: %v", err)}
 	}
 	nontrivial := false
+	// vectorTaint: a write that was accepted carried a huge or non-finite component in an indexed vector
+	// (later distances may leave the finite range)
+	vectorTaint := false
 	for i, r := range c.Reqs {
+		var tree any
+		reqHuge, vecHuge := true, true // a body that is no JSON tree is not judged on this point
+		if json.Unmarshal([]byte(r.Body), &tree) == nil {
+			reqHuge, vecHuge = hugeIn(tree, true, nil), hugeIn(tree, false, vectorKeys)
+		} else if r.Body == "" {
+			reqHuge, vecHuge = false, false
+		}
 		fail := func(f string, a ...any) vt.Result {
 			body := r.Body
 			if len(body) > 600 {
@@ -953,13 +1086,42 @@ func execCase(c Case) (res vt.Result) {
 		s.h.ServeHTTP(w, req)
 		status := w.Code
 		rec.Count(fmt.Sprintf("status_%dxx", status/100), 1)
-		after, derr := s.digest()
+		if os.Getenv("VERIF_DEBUG") != "" {
+			fmt.Printf("DEBUG %d %s %s -> %d %.300s\n", i, r.Method, r.Path, status, w.Body.String())
+		}
+		if r.Method == "DELETE" && status/100 == 2 {
+			// files removed under a loaded shard keep answering until the shard is unloaded
+			s.node.VerifShardManager().VerifUnloadAll()
+		}
+		after, afterBy, derr := s.digestByKey()
 		if derr != nil {
 			return fail("after the request (status %d) stored data cannot be read any more: %v", status, derr)
 		}
-		if status == 500 && nonFinite.MatchString(w.Body.String()) {
+		// whatever the answer, only the collection the request addresses may have changed
+		if after != before {
+			addr := addressed(r)
+			for _, m := range []map[string]string{beforeBy, afterBy} {
+				for k := range m {
+					if k != addr && beforeBy[k] != afterBy[k] {
+						return fail("answered %d and altered stored data it does not address (it addresses %q):\n--- %s before\n%s--- after\n%s", status, addr, k, beforeBy[k], afterBy[k])
+					}
+				}
+			}
+			rec.Count("changes_confined_to_the_addressed_collection", 1)
+		}
+		beforeBy = afterBy
+		if status/100 == 2 && vecHuge && r.Method != "GET" && r.Method != "DELETE" {
+			vectorTaint = true
+		}
+		if status/100 == 2 && r.Msgpack && !vecHuge && strings.Contains(r.Body, `"$`) && strings.HasSuffix(r.Path, "/points") && (strings.Contains(w.Body.String(), `"failedRanges":[]`) || strings.Contains(w.Body.String(), `"failedPoints":[]`)) {
+			rec.Count("accepted_writes_with_a_non_finite_number_outside_the_indexed_vectors", 1)
+		}
+		if status == 500 && nonFinite.MatchString(w.Body.String()) && (reqHuge || vectorTaint) {
 			// a request that passed validation but whose distances / scores overflowed: the property judges
-			// valid requests only when their distances stay finite
+			// valid requests only when their distances stay finite. That is only possible when the request
+			// itself, or an indexed vector stored before, holds a huge or non-finite number: a non-finite
+			// number in any other stored field does not enter a distance, and a search that is answered 500
+			// because of it is judged like any other
 			rec.Count("unjudged_nonfinite_result", 1)
 			if after != before && (r.Method == "POST" && strings.HasSuffix(r.Path, "/search")) {
 				return fail("a search changed stored data")
